@@ -34,6 +34,8 @@ class StubSigner:
 
     def GetPublicKey(self):
         self.log.append(('pubkey', self.idx))
+        if self.str_pubkey == 'nonascii':
+            return 'PUBKEY%d.%d j\u00fcrgen@b\u00fcro' % (self.gen, self.idx)
         if self.str_pubkey:
             return 'PUBKEY%d.%d' % (self.gen, self.idx)
         return b'PUBKEY%d.%d' % (self.gen, self.idx)
@@ -155,7 +157,8 @@ def _one_connect(ctx, w, st_holder, cfg, mods, tag):
     if exp_pub and not cb_raises:
         ctx.check(len(pub_pk) == 1, tag + 'public key offered exactly once after all keys were rejected', detail=str(len(pub_pk)))
         if pub_pk:
-            ctx.check(pub_pk[0].payload == (b'PUBKEY%d.0' % auth.gen) + b'\0', tag + "public key packet is the first key's public key (of THIS connect call), NUL-terminated", detail=repr(norm(pub_pk[0].payload)))
+            want_pk = (b'PUBKEY%d.0' % auth.gen) + (' j\u00fcrgen@b\u00fcro'.encode('utf-8') if cfg.get('str_pubkey') == 'nonascii' else b'') + b'\0'
+            ctx.check(pub_pk[0].payload == want_pk, tag + "public key packet is the first key's public key (of THIS connect call), NUL-terminated", detail=repr(norm(pub_pk[0].payload)))
             ctx.check(pub_pk[0].index > max([p.index for p in sig_pk] or [-1]), tag + 'public key only after every signature attempt')
     else:
         ctx.check(len(pub_pk) == 0, tag + 'no public key offered unless all keys were rejected (and the callback returned)', detail=str(len(pub_pk)))
@@ -251,6 +254,7 @@ def shapes(tier, seed):
         for c in cfgs:
             out.append({'h': 'connect', 'impl': impl, 'cfgs': [c]})
         out.append({'h': 'connect', 'impl': impl, 'cfgs': [{'nkeys': 1, 'accept': ['pubkey'], 'strays': 0, 'callback': None, 'str_pubkey': True}]})
+        out.append({'h': 'connect', 'impl': impl, 'cfgs': [{'nkeys': 2, 'accept': ['pubkey'], 'strays': 0, 'callback': None, 'str_pubkey': 'nonascii', 'use': True}]})
         # repeated connect() on the same object
         kinds = [{'nkeys': 0, 'accept': ['none'], 'use': True}, {'nkeys': 0, 'accept': ['never']}, {'nkeys': 2, 'accept': ['key', 1], 'use': True},
                  {'nkeys': 2, 'accept': ['never']}, {'nkeys': 1, 'accept': ['never'], 'bad_at': 0}, {'nkeys': 1, 'accept': ['pubkey'], 'callback': 'raise'},
